@@ -376,6 +376,13 @@ func runWire(cfg *runCfg) error {
 		if !bytes.Equal(rd.BlockRef().Raw(), bRef(ref).Build().Raw()) {
 			rep.finding("C20", "block-proof-ref-bytes-differ-from-signed-bytes", "the proof's block ref is not byte-identical to the COMMIT header the members signed", p)
 		}
+		same := len(got) == len(nodes)
+		for j := 0; same && j < len(nodes); j++ {
+			same = bytes.Equal(got[j].Id, nodes[j].Id) && bytes.Equal(got[j].Sig, nodes[j].Sig)
+		}
+		if !same {
+			rep.finding("C20", "block-proof-does-not-carry-every-commit-signature", fmt.Sprintf("block proof built from %d COMMITs holds %d nodes (or other ids / signatures, or another order)", len(nodes), len(got)), p)
+		}
 		bcases = append(bcases, fmt.Sprintf("(%s, %s, %s)", p, cBytes(bp.Raw()), g))
 		rep.count("built:blockproof")
 	}
